@@ -256,6 +256,7 @@ fn check_cli(case: &Case, ctx: &Ctx) -> Outcome {
     // pair stands next to it: the FASTA sample must come out exactly as on its own.
     let companion = !dict.is_empty() && (case.k == 17 || seqs.len() + case.k / 2 % 5 == 3);
     let reads: Vec<Vec<u8>> = vec![gen::filler(case.k + 6, 3), model::revcomp(&gen::filler(case.k + 4, 5))];
+    let mut reads_first = false;
     let mut args = if companion {
         cli::write_fastq(&dir.join("reads_1.fastq"), &[(reads[0].clone(), vec![b'I'; reads[0].len()])]);
         cli::write_fastq(&dir.join("reads_2.fastq"), &[(reads[1].clone(), vec![b'I'; reads[1].len()])]);
@@ -267,8 +268,19 @@ fn check_cli(case: &Case, ctx: &Ctx) -> Outcome {
             std::fs::create_dir_all(dir.join("lists")).unwrap();
             cli::write_fasta_auto(&dir.join("lists/smp.fa"), &[gen::filler(case.k + 9, 7)], None);
         }
-        std::fs::write(dir.join(lp), "smp\tsmp.fa\nreads\treads_1.fastq\treads_2.fastq\n").unwrap();
-        vec!["build", "-o", "out", "-k", &ks, "-f", lp, "--min-count", "1", "--qual-filter", "no-filter"]
+        // the read pair may be listed first, and with a count threshold that its reads (each given twice) reach:
+        // the threshold is about reads, every sample is what its own files say it is
+        if seqs.len() % 2 == 0 {
+            for (f, r) in [("reads_1.fastq", &reads[0]), ("reads_2.fastq", &reads[1])] {
+                cli::write_fastq(&dir.join(f), &[(r.clone(), vec![b'I'; r.len()]), (r.clone(), vec![b'I'; r.len()])]);
+            }
+            std::fs::write(dir.join(lp), "reads\treads_1.fastq\treads_2.fastq\nsmp\tsmp.fa\n").unwrap();
+            reads_first = true;
+            vec!["build", "-o", "out", "-k", &ks, "-f", lp, "--min-count", "2", "--qual-filter", "no-filter"]
+        } else {
+            std::fs::write(dir.join(lp), "smp\tsmp.fa\nreads\treads_1.fastq\treads_2.fastq\n").unwrap();
+            vec!["build", "-o", "out", "-k", &ks, "-f", lp, "--min-count", "1", "--qual-filter", "no-filter"]
+        }
     } else if !dict.is_empty() && seqs.len() >= 2 && (case.k / 2 + seqs.len()) % 4 == 1 {
         // one sample whose records are spread over two FASTA files named on one list line
         // (chromosome.fa plus plasmids.fa of an isolate): the sample is the union of both files
@@ -294,7 +306,9 @@ fn check_cli(case: &Case, ctx: &Ctx) -> Outcome {
         }
         must_ok(&o, "ska build")?;
         let nk = nk(ctx, &dir, "out.skf")?;
-        let t = if companion {
+        let t = if companion && reads_first {
+            model::Table::from_samples(&["reads".to_string(), "smp".to_string()], &[model::build_sample(&reads, case.k, case.rc), dict.clone()])
+        } else if companion {
             model::Table::from_samples(&["smp".to_string(), "reads".to_string()], &[dict.clone(), model::build_sample(&reads, case.k, case.rc)])
         } else {
             model::Table::from_samples(&["smp".to_string()], &[dict.clone()])
